@@ -392,6 +392,9 @@ def install_seams(sim, pool_kind):
         pat.replace_identity(multiprocessing.pool.Pool, pool_factory)
         if n == 0:
             sim.probe("no_multiprocessing_attr")
+        tshim = simpool.TimeShim(sim, _time)
+        pat.replace_identity(_time, tshim)
+        pat.replace_identity(_time.sleep, tshim.sleep)
     if sim.donor_mode == "adversarial":
         pat.replace_identity(_pyrandom, _RandomShim(sim, _pyrandom))
         pat.replace_identity(_pyrandom.sample, sim.sample)
@@ -523,6 +526,8 @@ def run_call(case, record=True, owned=False):
             res = front(data, **kwargs)
             out.result = res
             out.ok = True
+        except HarnessError:
+            raise                # trouble in the simulator itself is never an outcome of the call under test
         except Exception as e:   # noqa: BLE001 - the call under test may raise anything
             out.ok = False
             out.exc = (type(e).__name__, str(e))
@@ -553,11 +558,19 @@ def run_call(case, record=True, owned=False):
     out.fields = result_fields(out.result)
     out.result_digest = digest(out.fields) if out.ok else None
     out.owned_changes = _owned_changes(objs, snap, data) if owned else None
+    out._owned = (objs, snap, data) if owned else None
     out.data = data
     out.kwargs = kwargs
     out.event_digest = digest([[e["kind"]] + [e.get(k) for k in ("pool", "task", "worker", "name", "occ")]
                                for e in sim.events])
     return out
+
+
+def owned_recheck(out):
+    """Look again, later in the process history, at the caller-owned objects of an earlier call."""
+    if out._owned is None:
+        return []
+    return _owned_changes(*out._owned)
 
 
 def _children_after(wait=3.0):
